@@ -210,7 +210,7 @@ def t3_context_parameters(ctx: Ctx):
                     is_a=lambda k, c: k == c or (k == 'UnionType' and c == 'types.UnionType'),
                     overrides={'unwrap_foreign': lambda a: a, '_cvt_float': lambda a: val, 'typing.get_args': lambda t: list(t.fields['members']), 'int': lambda v: 3, 'type': lambda v: NONE if v is None else Obj('type')})
         got = it.call_function(fn, [Obj('class'), 'num_randbits', Fraction(3), ty])
-        ctx.check(got == want, BYTE, fn, '_cvt_context_arg', f'a parameter annotated `{what}` receives an integer-valued argument as a Python int',
+        ctx.check(type(got) is int and got == want, BYTE, fn, '_cvt_context_arg', f'a parameter annotated `{what}` receives an integer-valued argument as a Python int',
                   f'receives {got!r}: `with fp.IEEEContext(5, 16, num_randbits=3): ...` raises TypeError: Expected \'int\', got Fraction (constructor annotations in use: {sorted(anns)})')
 
 
